@@ -320,7 +320,7 @@ package slice
 //@   ensures [C11] inputs: unchanged(elems(lhs)) && unchanged(elems(rhs))
 //@   ensures [C11] alternate: altOK(result)
 //@   ensures [C11] kept: len(result) > 0 ==> keptOK(result, es) && es[len(result)] == L
-//@   ensures [C11] common: L >= 0 && (forall k int :: {cw[k]} {cv[k]} 0 <= k && k < L ==> 0 <= cw[k] && cw[k] < len(lhs) && 0 <= cv[k] && cv[k] < len(rhs) && eqv(eq, lhs[cw[k]], rhs[cv[k]])) && (forall a int, b int :: {cw[a], cw[b]} {cv[a], cv[b]} 0 <= a && a < b && b < L ==> cw[a] < cw[b] && cv[a] < cv[b])
+//@   ensures [C11] common: L >= 0 && (forall k int :: {cw[k]} {cv[k]} 0 <= k && k < L ==> 0 <= cw[k] && cw[k] < len(lhs) && 0 <= cv[k] && cv[k] < len(rhs) && eqv(eq, lhs[cw[k]], rhs[cv[k]])) && (forall a int, b int :: {cw[a], cw[b]} {cv[a], cv[b]} 0 <= a && a <= b && b < L ==> cw[b] - cw[a] >= b - a && cv[b] - cv[a] >= b - a)
 //@   at after "lcs := LCSFunc(lhs, rhs, eq)": ghost es[0] = 0
 //@   at after "lcs := LCSFunc(lhs, rhs, eq)": ghost L = len(lcs)
 //@   at after "lcs := LCSFunc(lhs, rhs, eq)": ghost cw = LCSFunc_wa
